@@ -34,6 +34,9 @@ Lemma eval_EBin chk P q en s op a b :
   match binop_eval op va vb with Some v => Done (v, s2) | None => Fail end)).
 Proof. reflexivity. Qed.
 
+Lemma find_meth_own_None cs cd m : find_meth cs cd m = None -> find_m (c_methods cd) m = None.
+Proof. unfold find_meth. destruct (find_m (c_methods cd) m); [discriminate|reflexivity]. Qed.
+
 Definition F (n : nat) : nat := 3 * n + 6.
 Lemma F_S n : F (S n) = S (S (S (F n))).
 Proof. unfold F; lia. Qed.
@@ -87,7 +90,7 @@ Section Sim.
   Qed.
 
   (* --- what the side condition gives ------------------------------------------------------------ *)
-  Lemma side_parts : fresh_ok k P = true /\ forallb (ok_cb k) (p_classes P) = true /\
+  Lemma side_parts : fresh_ok k P = true /\ forallb (ok_cb k (p_classes P)) (p_classes P) = true /\
     forallb (fun d => ok_body k true (m_body d)) (p_funcs P) = true /\ forallb (ok_s k true) (p_main P) = true.
   Proof.
     pose proof Hside as H. unfold side in H.
@@ -97,19 +100,12 @@ Section Sim.
   Qed.
   Lemma side_fresh : fresh_ok k P = true.
   Proof. apply side_parts. Qed.
-  Lemma side_classes_b : forallb (ok_cb k) (p_classes P) = true.
+  Lemma side_classes_b : forallb (ok_cb k (p_classes P)) (p_classes P) = true.
   Proof. apply side_parts. Qed.
   Lemma side_classes : forallb (ok_c k) (p_classes P) = true.
   Proof.
     pose proof side_classes_b as H. rewrite forallb_forall in *. intros x Hx. specialize (H x Hx).
     unfold ok_cb in H. apply andb_true_iff in H. tauto.
-  Qed.
-  Lemma class_no_base cd c : find_c (p_classes P) c = Some cd -> c_base cd = None.
-  Proof.
-    intros H. apply find_c_In in H. destruct H as [H _].
-    pose proof side_classes_b as Hc. rewrite forallb_forall in Hc. specialize (Hc cd H).
-    unfold ok_cb, no_base in Hc. apply andb_true_iff in Hc. destruct Hc as [_ Hc].
-    destruct (c_base cd); [discriminate|reflexivity].
   Qed.
   Lemma side_funcs : forallb (fun d => ok_body k true (m_body d)) (p_funcs P) = true.
   Proof. apply side_parts. Qed.
@@ -127,17 +123,19 @@ Section Sim.
     exists cd, find_c (p_classes P) (k_cls k) = Some cd /\
       find_m (c_methods cd) (k_get k) = None /\ find_m (c_methods cd) (k_set k) = None /\
       N.eqb (k_get k) (k_set k) = false /\ N.eqb (k_self k) (k_value k) = false /\
-      N.eqb (k_get k) init_name = false /\ N.eqb (k_set k) init_name = false /\ k_fac k = false.
+      N.eqb (k_get k) init_name = false /\ N.eqb (k_set k) init_name = false /\ k_fac k = false /\
+      find_meth (p_classes P) cd (k_get k) = None /\ find_meth (p_classes P) cd (k_set k) = None.
   Proof.
     intros He. pose proof side_fresh as H. pose proof not_both as NB. rewrite He in NB. cbn in NB.
     unfold fresh_ok in H. rewrite He in H. cbn in H.
     apply andb_true_iff in H. destruct H as [H _]. apply andb_true_iff in H. destruct H as [_ H].
     destruct (find_c (p_classes P) (k_cls k)) as [cd|]; [|discriminate]. exists cd.
     repeat (apply andb_true_iff in H; destruct H as [H ?]).
-    unfold absent in *.
-    destruct (find_m (c_methods cd) (k_get k)); [discriminate|].
-    destruct (find_m (c_methods cd) (k_set k)); [discriminate|].
+    unfold absentm in *.
+    destruct (find_meth (p_classes P) cd (k_get k)) eqn:MG; [discriminate|].
+    destruct (find_meth (p_classes P) cd (k_set k)) eqn:MS; [discriminate|].
     repeat match goal with X : negb _ = true |- _ => apply negb_true_iff in X end.
+    pose proof (find_meth_own_None _ _ _ MG). pose proof (find_meth_own_None _ _ _ MS).
     repeat split; auto.
   Qed.
 
@@ -192,19 +190,69 @@ Section Sim.
     - reflexivity.
   Qed.
 
+  (* a name found through the base class is none of the new methods of the class *)
+  Lemma new_methods_not_inherited cd c m d : find_c (p_classes P) c = Some cd ->
+    find_meth (p_classes P) cd m = Some d -> find_m (c_methods cd) m = None ->
+    find_m (new_methods k (c_name cd)) m = None.
+  Proof.
+    intros Hc Hm Ho. pose proof (find_c_In _ _ _ Hc) as [_ Hn]. unfold new_methods.
+    destruct (k_enc k && N.eqb (c_name cd) (k_cls k)) eqn:E1;
+      destruct (k_fac k && negb (k_fglobal k) && N.eqb (c_name cd) (k_fcls k)) eqn:E2.
+    - exfalso. apply andb_true_iff in E1. destruct E1 as [E1 _].
+      apply andb_true_iff in E2. destruct E2 as [E2 _]. apply andb_true_iff in E2. destruct E2 as [E2 _].
+      pose proof not_both as NB. rewrite E1, E2 in NB. discriminate.
+    - apply andb_true_iff in E1. destruct E1 as [E1 E1']. apply N.eqb_eq in E1'.
+      destruct (enc_facts E1) as [cd' [Hc' [_ [_ [_ [_ [_ [_ [_ [MG MS]]]]]]]]]].
+      assert (cd' = cd) by (rewrite <- E1', Hn in Hc'; congruence). subst cd'.
+      cbn. destruct (N.eqb_spec m (k_get k)); [subst; congruence|].
+      destruct (N.eqb_spec m (k_set k)); [subst; congruence|]. reflexivity.
+    - apply andb_true_iff in E2. destruct E2 as [E2 E3]. apply andb_true_iff in E2. destruct E2 as [E2 E4].
+      apply N.eqb_eq in E3. apply negb_true_iff in E4.
+      pose proof side_fresh as H. unfold fresh_ok in H. rewrite E2, E4 in H.
+      apply andb_true_iff in H. destruct H as [_ H]. cbn in H.
+      destruct (find_c (p_classes P) (k_fcls k)) as [cd'|] eqn:Hc'; [|discriminate].
+      assert (cd' = cd) by (rewrite <- E3, Hn in Hc'; congruence). subst cd'.
+      apply andb_true_iff in H. destruct H as [H _]. unfold absentm in H.
+      cbn. destruct (N.eqb_spec m (k_fname k)); [subst; rewrite Hm in H; discriminate|]. reflexivity.
+    - reflexivity.
+  Qed.
+
+  Lemma find_meth_init_None cd c : find_c (p_classes P) c = Some cd ->
+    find_meth (p_classes P) cd init_name = None -> find_meth (p_classes P') (tC k cd) init_name = None.
+  Proof.
+    intros Hc Hm. unfold find_meth in *. rewrite find_m_tC.
+    destruct (find_m (c_methods cd) init_name); [discriminate|]. rewrite new_methods_init.
+    change (c_base (tC k cd)) with (c_base cd). destruct (c_base cd) as [b|]; [|reflexivity].
+    rewrite find_c_tP. destruct (find_c (p_classes P) b) as [bd|]; [|reflexivity]. cbn [option_map].
+    rewrite find_m_tC. destruct (find_m (c_methods bd) init_name); [discriminate|]. apply new_methods_init.
+  Qed.
+
+  Lemma find_meth_fwd cd c m d : find_c (p_classes P) c = Some cd -> find_meth (p_classes P) cd m = Some d ->
+    exists on, find_meth (p_classes P') (tC k cd) m = Some (tM k on d) /\ ok_body k on (m_body d) = true.
+  Proof.
+    intros Hc Hm. pose proof Hm as Hm0. unfold find_meth in Hm |- *. rewrite find_m_tC.
+    destruct (find_m (c_methods cd) m) as [d0|] eqn:Eo.
+    - inversion Hm; subst d0. eexists. split; [reflexivity|]. eapply method_ok; eauto.
+    - rewrite (new_methods_not_inherited cd c m d Hc Hm0 Eo).
+      change (c_base (tC k cd)) with (c_base cd).
+      destruct (c_base cd) as [b|]; [|discriminate]. rewrite find_c_tP.
+      destruct (find_c (p_classes P) b) as [bd|] eqn:Eb; [|discriminate]. cbn [option_map].
+      rewrite find_m_tC, Hm. eexists. split; [reflexivity|]. eapply method_ok; eauto.
+  Qed.
+
   (* --- calls ------------------------------------------------------------------------------------ *)
   Lemma construct_sim ex ex' : sim_ex ex ex' ->
     forall c vs s r, construct P ex c vs s = Done r -> construct P' ex' c vs s = Done r.
   Proof.
     intros L c vs s r H. unfold construct in *. rewrite find_c_tP.
     destruct (find_c (p_classes P) c) as [cd|] eqn:Ec; [|discriminate]. cbn [option_map].
-    rewrite find_m_tC. destruct (find_m (c_methods cd) init_name) as [d|] eqn:Em.
-    - cbn. pose proof (method_ok _ _ _ _ Ec Em) as Hok.
-      destruct (m_body d) as [b|]; [|discriminate]. cbn.
+    destruct (find_meth (p_classes P) cd init_name) as [d|] eqn:Em.
+    - destruct (find_meth_fwd _ _ _ _ Ec Em) as [on [E' Hok]]. rewrite E'.
+      cbn. destruct (m_body d) as [b|]; [|discriminate]. cbn.
       destruct (m_static d); [discriminate|].
       apply bind_Done in H. destruct H as [[v s1] [H1 H2]].
       cbn in Hok. rewrite (run_code_sim _ ex ex' L _ _ _ _ _ Hok H1). cbn. exact H2.
-    - rewrite new_methods_init. exact H.
+    - rewrite (find_meth_init_None _ _ Ec Em). exact H.
   Qed.
 
   Lemma run_body_sim ex ex' : sim_ex ex ex' ->
@@ -222,9 +270,10 @@ Section Sim.
     intros L o m vs s r H. unfold call_method in *.
     destruct (class_of (fst s) o) as [c|]; [|discriminate]. rewrite find_c_tP.
     destruct (find_c (p_classes P) c) as [cd|] eqn:Ec; [|discriminate]. cbn [option_map].
-    rewrite find_m_tC. destruct (find_m (c_methods cd) m) as [d|] eqn:Em; [|discriminate].
+    destruct (find_meth (p_classes P) cd m) as [d|] eqn:Em; [|discriminate].
+    destruct (find_meth_fwd _ _ _ _ Ec Em) as [on [E' Hok]]. rewrite E'.
     cbn. destruct (m_static d); [discriminate|].
-    eapply run_body_sim; eauto. eapply method_ok; eauto.
+    eapply run_body_sim; eauto.
   Qed.
 
   Lemma call_static_sim ex ex' : sim_ex ex ex' ->
@@ -275,6 +324,13 @@ Section Sim.
     rewrite N.eqb_sym, GS, N.eqb_refl. auto.
   Qed.
 
+  Lemma find_getter_meth cd : k_enc k = true -> find_c (p_classes P) (k_cls k) = Some cd ->
+    find_meth (p_classes P') (tC k cd) (k_get k) = Some (getter_def k) /\
+    find_meth (p_classes P') (tC k cd) (k_set k) = Some (setter_def k).
+  Proof.
+    intros He Hc. destruct (find_getter cd He Hc) as [G S0]. unfold find_meth. rewrite G, S0. auto.
+  Qed.
+
   Lemma getter_call q en s a o s1 w : 3 <= q -> k_enc k = true ->
     eval chk P' q en s a = Done (o, s1) -> chk (fst s1) o = true ->
     read_attr (fst s1) o (k_fld k) = Some w ->
@@ -283,7 +339,7 @@ Section Sim.
     intros Hq He Ha Hc R. cbn [eval]. rewrite Ha. cbn.
     unfold call_method. rewrite (Hchk He _ _ Hc). rewrite find_c_tP.
     destruct (enc_facts He) as [cd [Hcd _]]. rewrite Hcd. cbn [option_map].
-    destruct (find_getter cd He Hcd) as [G _]. rewrite G. cbn.
+    destruct (find_getter_meth cd He Hcd) as [G _]. rewrite G. cbn.
     unfold run_body. cbn. apply getter_run; assumption.
   Qed.
 
@@ -295,7 +351,7 @@ Section Sim.
     intros Hq He Ha Hv Hc W. cbn [eval]. rewrite Ha. cbn. rewrite Hv. cbn.
     unfold call_method. rewrite (Hchk He _ _ Hc). rewrite find_c_tP.
     destruct (enc_facts He) as [cd [Hcd [_ [_ [_ [SV _]]]]]]. rewrite Hcd. cbn [option_map].
-    destruct (find_getter cd He Hcd) as [_ S0]. rewrite S0. cbn.
+    destruct (find_getter_meth cd He Hcd) as [_ S0]. rewrite S0. cbn.
     unfold run_body. cbn. apply setter_run; assumption.
   Qed.
 
@@ -332,8 +388,9 @@ Section Sim.
     rewrite andb_true_r in NB. unfold fresh_ok in H. rewrite Hf, Hg in H.
     apply andb_true_iff in H. destruct H as [_ H]. cbn in H.
     destruct (find_c (p_classes P) (k_fcls k)) as [cd|] eqn:Ec; [|discriminate]. exists cd. split; [reflexivity|].
-    apply andb_true_iff in H. destruct H as [H _]. unfold absent in H.
-    rewrite find_m_tC. destruct (find_m (c_methods cd) (k_fname k)); [discriminate|].
+    apply andb_true_iff in H. destruct H as [H _]. unfold absentm in H.
+    destruct (find_meth (p_classes P) cd (k_fname k)) eqn:MF; [discriminate|]. apply find_meth_own_None in MF.
+    rewrite find_m_tC. rewrite MF.
     apply find_c_In in Ec. destruct Ec as [_ Ec]. unfold new_methods. rewrite NB, Hf, Hg, Ec, N.eqb_refl. cbn.
     rewrite N.eqb_refl. reflexivity.
   Qed.
@@ -518,14 +575,21 @@ Qed.
 (* the freshness part of [side] is exactly "EncapsulateField does not refuse the accessor names" *)
 Lemma side_not_refused k P : side k P = true -> enc_refuses k P = false.
 Proof.
-  intros H. unfold enc_refuses. destruct (k_enc k) eqn:He; [|reflexivity]. cbn [andb class_has].
-  destruct (enc_facts k P H He) as [cd [Hc [G [S0 _]]]]. rewrite Hc.
-  rewrite (class_no_base k P H cd _ Hc). unfold absent. rewrite G, S0. reflexivity.
+  intros H. unfold enc_refuses. destruct (k_enc k) eqn:He; [|reflexivity]. cbn [andb].
+  destruct (enc_facts k P H He) as [cd [Hc [_ [_ [_ [_ [_ [_ [_ [MG MS]]]]]]]]]]. rewrite Hc.
+  unfold absentm. rewrite MG, MS. reflexivity.
 Qed.
 
 (* an accessor defined only in a base class makes EncapsulateField refuse *)
 Lemma inherited_refused : enc_refuses w_cfg w_inherit = true /\ side w_cfg w_inherit = false.
 Proof. split; vm_compute; reflexivity. Qed.
+
+(* a method inherited from the base class is found by the model's lookup; such programs are inside the domain *)
+Lemma inherit_example :
+  side w_cfg_paren w_inherit_ok = true /\
+  output_of (run (is_instance 1) w_inherit_ok 30 [] ([], [])) = Some [VInt 10; VInt 8; VInt 25] /\
+  output_of (run (is_instance 1) (tP w_cfg_paren w_inherit_ok) 96 [] ([], [])) = Some [VInt 10; VInt 8; VInt 25].
+Proof. repeat split; vm_compute; reflexivity. Qed.
 
 (* with the parenthesising code an augmented write needs no precedence condition *)
 Lemma ok_s_aug_paren k on tag p f op e :
